@@ -117,6 +117,12 @@ CHECKS = {
              "power arrows) and compared with the exact solution of the netlist the drawing depicts, in the translated component's direction, "
              "negated iff reverse, to half a unit of the displayed precision.",
         design='5/C14', technique='runtime oracle: parsed label text vs exact solution of the depicted netlist'),
+    'C15': dict(
+        text="Round-trip monitor: generated drawings of the persistable symbol set are serialised to JSON (text or file) and reloaded 1-5 times; after "
+             "every cycle the translated circuit is compared with the original (ids, kinds, value dictionaries, terminal order, node bijection, "
+             "ground); declarative element lists over the handler table with directions, lengths and place_after chains are compared with the "
+             "equivalent programmatic construction.",
+        design='5/C15', technique='round-trip/equivalence monitor over observed translations before and after save/load'),
 }
 
 NOT_YET = "check not built yet in this round (work in progress; see DESIGN.md section 5)"
